@@ -511,9 +511,19 @@ class reader( object ):
                 # processing mode; it is not likely safe for them to try again, because they'll
                 # probably process the same file and get the same error.  Report the file and
                 # timestamp so it can be fixed, if necessary...  If empty file, raise StopIteration
-                try:
-                    n,(ts,sn,js) = parse_record( fd, n=n, encoding=encoding )
-                except StopIteration:
+                ts		= None
+                while ts is None:
+                    try:
+                        n,(ts,sn,js) = parse_record( fd, n=n, encoding=encoding )
+                    except StopIteration:
+                        break
+                    except ValueError as exc:
+                        # The line was consumed, but no <timestamp>/<serial> could be parsed from
+                        # it; report it as promised, and carry on with the following line.
+                        log.warning( "%s Unparsable history record in %s after line %d: %s", self,
+                                     self.name+f, n, exc )
+                        yield (f,n,cur),(None,None)
+                if ts is None:
                     break
 
                 # a valid (ts,js) has been parsed; loop to advancing historical time, and return it
